@@ -124,82 +124,126 @@ type c04Leaf struct {
 	benign     string
 	mustReport bool
 	set        func(c *vsCluster, e *c04Extras, v string)
+	// post mutates the typed objects (for values the abstract state cannot express, e.g. the field of a union
+	// that the type discriminator does not select)
+	post func(objs []client.Object, v string)
+}
+
+// c04Route returns the typed HTTPRoute with that name.
+func c04Route(objs []client.Object, name string) *gatewayv1.HTTPRoute {
+	for _, o := range objs {
+		if hr, ok := o.(*gatewayv1.HTTPRoute); ok && hr.Name == name {
+			return hr
+		}
+	}
+	panic("no route " + name)
+}
+
+// c04Surroundings: the state around the planted leaf (applied after the leaf was set).
+var c04Surroundings = []string{"valid", "nginxproxy-mode-unset", "nginxproxy-other-field-invalid", "nginxproxy-exporter-interval-unset",
+	"route-other-rule-invalid", "policy-other-field-invalid"}
+
+func c04Surround(kind string, c *vsCluster, e *c04Extras) {
+	switch kind {
+	case "nginxproxy-mode-unset":
+		e.np.Spec.RewriteClientIP.Mode = nil
+	case "nginxproxy-other-field-invalid":
+		e.np.Spec.Telemetry.ServiceName = helpers.GetPointer("bad service name;")
+	case "nginxproxy-exporter-interval-unset":
+		e.np.Spec.Telemetry.Exporter.Interval = nil
+		e.np.Spec.Telemetry.ServiceName = nil
+	case "route-other-rule-invalid":
+		c.Routes[0].Rules = append(c.Routes[0].Rules, vsRule{Matches: []vsMatch{{Path: "/inv"}}, Filters: []vsFilter{{Kind: "unsupported"}},
+			Backends: []vsBackend{{Name: "svc-a", Port: 80, Weight: 1}}})
+	case "policy-other-field-invalid":
+		e.csp.Spec.KeepAlive.Requests = helpers.GetPointer[int32](-1)
+		e.op.Spec.Tracing.Ratio = helpers.GetPointer[int32](1000)
+	}
 }
 
 func c04Leaves() []c04Leaf {
 	return []c04Leaf{
-		{"Gateway.listener.hostname", "ok.example.com", true, func(c *vsCluster, _ *c04Extras, v string) { c.Gateways[0].Listeners[0].Host = &v }},
-		{"HTTPRoute.hostname", "ok.example.com", true, func(c *vsCluster, _ *c04Extras, v string) { c.Routes[0].Hosts = []string{v} }},
-		{"HTTPRoute.match.path", "/ok", true, func(c *vsCluster, _ *c04Extras, v string) { c.Routes[0].Rules[0].Matches[1].Path = v }},
-		{"HTTPRoute.match.pathExact", "/ok", true, func(c *vsCluster, _ *c04Extras, v string) { c.Routes[0].Rules[1].Matches[0].Path = v }},
-		{"HTTPRoute.match.method", "GET", true, func(c *vsCluster, _ *c04Extras, v string) { c.Routes[0].Rules[0].Matches[0].Method = &v }},
-		{"HTTPRoute.match.header.name", "X-Ok", true, func(c *vsCluster, _ *c04Extras, v string) { c.Routes[0].Rules[0].Matches[0].Headers[0][0] = v }},
-		{"HTTPRoute.match.header.value", "okv", true, func(c *vsCluster, _ *c04Extras, v string) { c.Routes[0].Rules[0].Matches[0].Headers[0][1] = v }},
-		{"HTTPRoute.match.query.name", "okq", true, func(c *vsCluster, _ *c04Extras, v string) { c.Routes[0].Rules[0].Matches[0].Query[0][0] = v }},
-		{"HTTPRoute.match.query.value", "okv", true, func(c *vsCluster, _ *c04Extras, v string) { c.Routes[0].Rules[0].Matches[0].Query[0][1] = v }},
-		{"HTTPRoute.filter.reqhdr.set.name", "X-Ok", true, func(c *vsCluster, _ *c04Extras, v string) { c.Routes[0].Rules[0].Filters[0].Set[0][0] = v }},
-		{"HTTPRoute.filter.reqhdr.set.value", "okv", true, func(c *vsCluster, _ *c04Extras, v string) { c.Routes[0].Rules[0].Filters[0].Set[0][1] = v }},
-		{"HTTPRoute.filter.reqhdr.add.name", "X-Ok", true, func(c *vsCluster, _ *c04Extras, v string) { c.Routes[0].Rules[0].Filters[0].Add[0][0] = v }},
-		{"HTTPRoute.filter.reqhdr.add.value", "okv", true, func(c *vsCluster, _ *c04Extras, v string) { c.Routes[0].Rules[0].Filters[0].Add[0][1] = v }},
-		{"HTTPRoute.filter.reqhdr.remove", "X-Ok", true, func(c *vsCluster, _ *c04Extras, v string) { c.Routes[0].Rules[0].Filters[0].Remove[0] = v }},
-		{"HTTPRoute.filter.resphdr.set.name", "X-Ok", true, func(c *vsCluster, _ *c04Extras, v string) { c.Routes[0].Rules[0].Filters[1].Set[0][0] = v }},
-		{"HTTPRoute.filter.resphdr.set.value", "okv", true, func(c *vsCluster, _ *c04Extras, v string) { c.Routes[0].Rules[0].Filters[1].Set[0][1] = v }},
-		{"HTTPRoute.filter.resphdr.add.value", "okv", true, func(c *vsCluster, _ *c04Extras, v string) { c.Routes[0].Rules[0].Filters[1].Add[0][1] = v }},
-		{"HTTPRoute.filter.resphdr.remove", "X-Ok", true, func(c *vsCluster, _ *c04Extras, v string) { c.Routes[0].Rules[0].Filters[1].Remove[0] = v }},
-		{"HTTPRoute.filter.rewrite.hostname", "ok.example.org", true, func(c *vsCluster, _ *c04Extras, v string) { c.Routes[0].Rules[0].Filters[2].Host = &v }},
-		{"HTTPRoute.filter.rewrite.replacePrefixMatch", "/ok", true, func(c *vsCluster, _ *c04Extras, v string) { c.Routes[0].Rules[0].Filters[2].Path.Val = v }},
-		{"HTTPRoute.filter.rewrite.replaceFullPath", "/ok", true, func(c *vsCluster, _ *c04Extras, v string) { c.Routes[0].Rules[1].Filters[0].Path.Val = v }},
-		{"HTTPRoute.filter.redirect.scheme", "https", true, func(c *vsCluster, _ *c04Extras, v string) { c.Routes[1].Rules[0].Filters[0].Scheme = &v }},
-		{"HTTPRoute.filter.redirect.hostname", "ok.example.org", true, func(c *vsCluster, _ *c04Extras, v string) { c.Routes[1].Rules[0].Filters[0].Host = &v }},
-		{"HTTPRoute.filter.redirect.replaceFullPath", "/ok", true, func(c *vsCluster, _ *c04Extras, v string) { c.Routes[1].Rules[0].Filters[0].Path.Val = v }},
-		{"HTTPRoute.filter.redirect.replacePrefixMatch", "/ok", true, func(c *vsCluster, _ *c04Extras, v string) { c.Routes[1].Rules[1].Filters[0].Path.Val = v }},
-		{"HTTPRoute.backendRef.name", "svc-a", false, func(c *vsCluster, _ *c04Extras, v string) { c.Routes[0].Rules[0].Backends[0].Name = v }},
-		{"HTTPRoute.backendRef.namespace", "default", false, func(c *vsCluster, _ *c04Extras, v string) { c.Routes[0].Rules[0].Backends[0].NS = &v }},
-		{"HTTPRoute.parentRef.sectionName", "http", false, func(c *vsCluster, _ *c04Extras, v string) { c.Routes[0].Parents[0].Section = &v }},
-		{"GRPCRoute.hostname", "ok.example.com", true, func(c *vsCluster, _ *c04Extras, v string) { c.Routes[2].Hosts = []string{v} }},
-		{"GRPCRoute.match.method.service+method", "/ok.Svc/Get", true, func(c *vsCluster, _ *c04Extras, v string) { c.Routes[2].Rules[0].Matches[0].Path = v }},
-		{"GRPCRoute.match.header.name", "X-Ok", true, func(c *vsCluster, _ *c04Extras, v string) { c.Routes[2].Rules[0].Matches[0].Headers[0][0] = v }},
-		{"GRPCRoute.match.header.value", "okv", true, func(c *vsCluster, _ *c04Extras, v string) { c.Routes[2].Rules[0].Matches[0].Headers[0][1] = v }},
-		{"Gateway.listener.tls.certificateRef.name", "cert-a", false, func(c *vsCluster, _ *c04Extras, v string) { c.Gateways[0].Listeners[1].Cert.Name = v }},
-		{"NginxProxy.telemetry.exporter.endpoint", "ok.example.com:4317", true, func(_ *vsCluster, e *c04Extras, v string) { e.np.Spec.Telemetry.Exporter.Endpoint = v }},
-		{"NginxProxy.telemetry.exporter.interval", "5s", true, func(_ *vsCluster, e *c04Extras, v string) {
+		{name: "Gateway.listener.hostname", benign: "ok.example.com", mustReport: true, set: func(c *vsCluster, _ *c04Extras, v string) { c.Gateways[0].Listeners[0].Host = &v }},
+		{name: "HTTPRoute.hostname", benign: "ok.example.com", mustReport: true, set: func(c *vsCluster, _ *c04Extras, v string) { c.Routes[0].Hosts = []string{v} }},
+		{name: "HTTPRoute.match.path", benign: "/ok", mustReport: true, set: func(c *vsCluster, _ *c04Extras, v string) { c.Routes[0].Rules[0].Matches[1].Path = v }},
+		{name: "HTTPRoute.match.pathExact", benign: "/ok", mustReport: true, set: func(c *vsCluster, _ *c04Extras, v string) { c.Routes[0].Rules[1].Matches[0].Path = v }},
+		{name: "HTTPRoute.match.method", benign: "GET", mustReport: true, set: func(c *vsCluster, _ *c04Extras, v string) { c.Routes[0].Rules[0].Matches[0].Method = &v }},
+		{name: "HTTPRoute.match.header.name", benign: "X-Ok", mustReport: true, set: func(c *vsCluster, _ *c04Extras, v string) { c.Routes[0].Rules[0].Matches[0].Headers[0][0] = v }},
+		{name: "HTTPRoute.match.header.value", benign: "okv", mustReport: true, set: func(c *vsCluster, _ *c04Extras, v string) { c.Routes[0].Rules[0].Matches[0].Headers[0][1] = v }},
+		{name: "HTTPRoute.match.query.name", benign: "okq", mustReport: true, set: func(c *vsCluster, _ *c04Extras, v string) { c.Routes[0].Rules[0].Matches[0].Query[0][0] = v }},
+		{name: "HTTPRoute.match.query.value", benign: "okv", mustReport: true, set: func(c *vsCluster, _ *c04Extras, v string) { c.Routes[0].Rules[0].Matches[0].Query[0][1] = v }},
+		{name: "HTTPRoute.filter.reqhdr.set.name", benign: "X-Ok", mustReport: true, set: func(c *vsCluster, _ *c04Extras, v string) { c.Routes[0].Rules[0].Filters[0].Set[0][0] = v }},
+		{name: "HTTPRoute.filter.reqhdr.set.value", benign: "okv", mustReport: true, set: func(c *vsCluster, _ *c04Extras, v string) { c.Routes[0].Rules[0].Filters[0].Set[0][1] = v }},
+		{name: "HTTPRoute.filter.reqhdr.add.name", benign: "X-Ok", mustReport: true, set: func(c *vsCluster, _ *c04Extras, v string) { c.Routes[0].Rules[0].Filters[0].Add[0][0] = v }},
+		{name: "HTTPRoute.filter.reqhdr.add.value", benign: "okv", mustReport: true, set: func(c *vsCluster, _ *c04Extras, v string) { c.Routes[0].Rules[0].Filters[0].Add[0][1] = v }},
+		{name: "HTTPRoute.filter.reqhdr.remove", benign: "X-Ok", mustReport: true, set: func(c *vsCluster, _ *c04Extras, v string) { c.Routes[0].Rules[0].Filters[0].Remove[0] = v }},
+		{name: "HTTPRoute.filter.resphdr.set.name", benign: "X-Ok", mustReport: true, set: func(c *vsCluster, _ *c04Extras, v string) { c.Routes[0].Rules[0].Filters[1].Set[0][0] = v }},
+		{name: "HTTPRoute.filter.resphdr.set.value", benign: "okv", mustReport: true, set: func(c *vsCluster, _ *c04Extras, v string) { c.Routes[0].Rules[0].Filters[1].Set[0][1] = v }},
+		{name: "HTTPRoute.filter.resphdr.add.value", benign: "okv", mustReport: true, set: func(c *vsCluster, _ *c04Extras, v string) { c.Routes[0].Rules[0].Filters[1].Add[0][1] = v }},
+		{name: "HTTPRoute.filter.resphdr.remove", benign: "X-Ok", mustReport: true, set: func(c *vsCluster, _ *c04Extras, v string) { c.Routes[0].Rules[0].Filters[1].Remove[0] = v }},
+		{name: "HTTPRoute.filter.rewrite.hostname", benign: "ok.example.org", mustReport: true, set: func(c *vsCluster, _ *c04Extras, v string) { c.Routes[0].Rules[0].Filters[2].Host = &v }},
+		{name: "HTTPRoute.filter.rewrite.replacePrefixMatch", benign: "/ok", mustReport: true, set: func(c *vsCluster, _ *c04Extras, v string) { c.Routes[0].Rules[0].Filters[2].Path.Val = v }},
+		{name: "HTTPRoute.filter.rewrite.replaceFullPath", benign: "/ok", mustReport: true, set: func(c *vsCluster, _ *c04Extras, v string) { c.Routes[0].Rules[1].Filters[0].Path.Val = v }},
+		{name: "HTTPRoute.filter.redirect.scheme", benign: "https", mustReport: true, set: func(c *vsCluster, _ *c04Extras, v string) { c.Routes[1].Rules[0].Filters[0].Scheme = &v }},
+		{name: "HTTPRoute.filter.redirect.hostname", benign: "ok.example.org", mustReport: true, set: func(c *vsCluster, _ *c04Extras, v string) { c.Routes[1].Rules[0].Filters[0].Host = &v }},
+		{name: "HTTPRoute.filter.redirect.replaceFullPath", benign: "/ok", mustReport: true, set: func(c *vsCluster, _ *c04Extras, v string) { c.Routes[1].Rules[0].Filters[0].Path.Val = v }},
+		{name: "HTTPRoute.filter.redirect.replacePrefixMatch", benign: "/ok", mustReport: true, set: func(c *vsCluster, _ *c04Extras, v string) { c.Routes[1].Rules[1].Filters[0].Path.Val = v }},
+		{name: "HTTPRoute.backendRef.name", benign: "svc-a", mustReport: false, set: func(c *vsCluster, _ *c04Extras, v string) { c.Routes[0].Rules[0].Backends[0].Name = v }},
+		{name: "HTTPRoute.backendRef.namespace", benign: "default", mustReport: false, set: func(c *vsCluster, _ *c04Extras, v string) { c.Routes[0].Rules[0].Backends[0].NS = &v }},
+		{name: "HTTPRoute.parentRef.sectionName", benign: "http", mustReport: false, set: func(c *vsCluster, _ *c04Extras, v string) { c.Routes[0].Parents[0].Section = &v }},
+		{name: "GRPCRoute.hostname", benign: "ok.example.com", mustReport: true, set: func(c *vsCluster, _ *c04Extras, v string) { c.Routes[2].Hosts = []string{v} }},
+		{name: "GRPCRoute.match.method.service+method", benign: "/ok.Svc/Get", mustReport: true, set: func(c *vsCluster, _ *c04Extras, v string) { c.Routes[2].Rules[0].Matches[0].Path = v }},
+		{name: "GRPCRoute.match.header.name", benign: "X-Ok", mustReport: true, set: func(c *vsCluster, _ *c04Extras, v string) { c.Routes[2].Rules[0].Matches[0].Headers[0][0] = v }},
+		{name: "GRPCRoute.match.header.value", benign: "okv", mustReport: true, set: func(c *vsCluster, _ *c04Extras, v string) { c.Routes[2].Rules[0].Matches[0].Headers[0][1] = v }},
+		{name: "Gateway.listener.tls.certificateRef.name", benign: "cert-a", mustReport: false, set: func(c *vsCluster, _ *c04Extras, v string) { c.Gateways[0].Listeners[1].Cert.Name = v }},
+		{name: "NginxProxy.telemetry.exporter.endpoint", benign: "ok.example.com:4317", mustReport: true, set: func(_ *vsCluster, e *c04Extras, v string) { e.np.Spec.Telemetry.Exporter.Endpoint = v }},
+		{name: "NginxProxy.telemetry.exporter.interval", benign: "5s", mustReport: true, set: func(_ *vsCluster, e *c04Extras, v string) {
 			e.np.Spec.Telemetry.Exporter.Interval = helpers.GetPointer(ngfAPIv1alpha1.Duration(v))
 		}},
-		{"NginxProxy.telemetry.serviceName", "ok-svc", true, func(_ *vsCluster, e *c04Extras, v string) { e.np.Spec.Telemetry.ServiceName = &v }},
-		{"NginxProxy.telemetry.spanAttributes.key", "okk", true, func(_ *vsCluster, e *c04Extras, v string) { e.np.Spec.Telemetry.SpanAttributes[0].Key = v }},
-		{"NginxProxy.telemetry.spanAttributes.value", "okv", true, func(_ *vsCluster, e *c04Extras, v string) { e.np.Spec.Telemetry.SpanAttributes[0].Value = v }},
-		{"NginxProxy.rewriteClientIP.trustedAddresses.value", "10.9.0.0/16", true, func(_ *vsCluster, e *c04Extras, v string) {
+		{name: "NginxProxy.telemetry.serviceName", benign: "ok-svc", mustReport: true, set: func(_ *vsCluster, e *c04Extras, v string) { e.np.Spec.Telemetry.ServiceName = &v }},
+		{name: "NginxProxy.telemetry.spanAttributes.key", benign: "okk", mustReport: true, set: func(_ *vsCluster, e *c04Extras, v string) { e.np.Spec.Telemetry.SpanAttributes[0].Key = v }},
+		{name: "NginxProxy.telemetry.spanAttributes.value", benign: "okv", mustReport: true, set: func(_ *vsCluster, e *c04Extras, v string) { e.np.Spec.Telemetry.SpanAttributes[0].Value = v }},
+		{name: "NginxProxy.rewriteClientIP.trustedAddresses.value", benign: "10.9.0.0/16", mustReport: true, set: func(_ *vsCluster, e *c04Extras, v string) {
 			e.np.Spec.RewriteClientIP.TrustedAddresses[0].Value = v
 		}},
-		{"NginxProxy.rewriteClientIP.mode", "XForwardedFor", true, func(_ *vsCluster, e *c04Extras, v string) {
+		{name: "NginxProxy.rewriteClientIP.mode", benign: "XForwardedFor", mustReport: true, set: func(_ *vsCluster, e *c04Extras, v string) {
 			e.np.Spec.RewriteClientIP.Mode = helpers.GetPointer(ngfAPIv1alpha1.RewriteClientIPModeType(v))
 		}},
-		{"NginxProxy.logging.errorLevel", "info", true, func(_ *vsCluster, e *c04Extras, v string) {
+		{name: "NginxProxy.logging.errorLevel", benign: "info", mustReport: true, set: func(_ *vsCluster, e *c04Extras, v string) {
 			e.np.Spec.Logging.ErrorLevel = helpers.GetPointer(ngfAPIv1alpha1.NginxErrorLogLevel(v))
 		}},
-		{"NginxProxy.ipFamily", "dual", true, func(_ *vsCluster, e *c04Extras, v string) { e.np.Spec.IPFamily = helpers.GetPointer(ngfAPIv1alpha1.IPFamilyType(v)) }},
-		{"ClientSettingsPolicy.body.maxSize", "10m", true, func(_ *vsCluster, e *c04Extras, v string) { e.csp.Spec.Body.MaxSize = helpers.GetPointer(ngfAPIv1alpha1.Size(v)) }},
-		{"ClientSettingsPolicy.body.timeout", "30s", true, func(_ *vsCluster, e *c04Extras, v string) { e.csp.Spec.Body.Timeout = helpers.GetPointer(ngfAPIv1alpha1.Duration(v)) }},
-		{"ClientSettingsPolicy.keepAlive.time", "1h", true, func(_ *vsCluster, e *c04Extras, v string) { e.csp.Spec.KeepAlive.Time = helpers.GetPointer(ngfAPIv1alpha1.Duration(v)) }},
-		{"ClientSettingsPolicy.keepAlive.timeout.server", "60s", true, func(_ *vsCluster, e *c04Extras, v string) {
+		{name: "NginxProxy.ipFamily", benign: "dual", mustReport: true, set: func(_ *vsCluster, e *c04Extras, v string) { e.np.Spec.IPFamily = helpers.GetPointer(ngfAPIv1alpha1.IPFamilyType(v)) }},
+		{name: "ClientSettingsPolicy.body.maxSize", benign: "10m", mustReport: true, set: func(_ *vsCluster, e *c04Extras, v string) { e.csp.Spec.Body.MaxSize = helpers.GetPointer(ngfAPIv1alpha1.Size(v)) }},
+		{name: "ClientSettingsPolicy.body.timeout", benign: "30s", mustReport: true, set: func(_ *vsCluster, e *c04Extras, v string) { e.csp.Spec.Body.Timeout = helpers.GetPointer(ngfAPIv1alpha1.Duration(v)) }},
+		{name: "ClientSettingsPolicy.keepAlive.time", benign: "1h", mustReport: true, set: func(_ *vsCluster, e *c04Extras, v string) { e.csp.Spec.KeepAlive.Time = helpers.GetPointer(ngfAPIv1alpha1.Duration(v)) }},
+		{name: "ClientSettingsPolicy.keepAlive.timeout.server", benign: "60s", mustReport: true, set: func(_ *vsCluster, e *c04Extras, v string) {
 			e.csp.Spec.KeepAlive.Timeout.Server = helpers.GetPointer(ngfAPIv1alpha1.Duration(v))
 		}},
-		{"ClientSettingsPolicy.keepAlive.timeout.header", "70s", true, func(_ *vsCluster, e *c04Extras, v string) {
+		{name: "ClientSettingsPolicy.keepAlive.timeout.header", benign: "70s", mustReport: true, set: func(_ *vsCluster, e *c04Extras, v string) {
 			e.csp.Spec.KeepAlive.Timeout.Header = helpers.GetPointer(ngfAPIv1alpha1.Duration(v))
 		}},
-		{"ObservabilityPolicy.tracing.spanName", "ok-span", true, func(_ *vsCluster, e *c04Extras, v string) { e.op.Spec.Tracing.SpanName = &v }},
-		{"ObservabilityPolicy.tracing.spanAttributes.key", "okk", true, func(_ *vsCluster, e *c04Extras, v string) { e.op.Spec.Tracing.SpanAttributes[0].Key = v }},
-		{"ObservabilityPolicy.tracing.spanAttributes.value", "okv", true, func(_ *vsCluster, e *c04Extras, v string) { e.op.Spec.Tracing.SpanAttributes[0].Value = v }},
-		{"ObservabilityPolicy.tracing.strategy", "ratio", true, func(_ *vsCluster, e *c04Extras, v string) { e.op.Spec.Tracing.Strategy = ngfAPIv1alpha2.TraceStrategy(v) }},
-		{"ObservabilityPolicy.tracing.context", "extract", true, func(_ *vsCluster, e *c04Extras, v string) {
+		{name: "ObservabilityPolicy.tracing.spanName", benign: "ok-span", mustReport: true, set: func(_ *vsCluster, e *c04Extras, v string) { e.op.Spec.Tracing.SpanName = &v }},
+		{name: "ObservabilityPolicy.tracing.spanAttributes.key", benign: "okk", mustReport: true, set: func(_ *vsCluster, e *c04Extras, v string) { e.op.Spec.Tracing.SpanAttributes[0].Key = v }},
+		{name: "ObservabilityPolicy.tracing.spanAttributes.value", benign: "okv", mustReport: true, set: func(_ *vsCluster, e *c04Extras, v string) { e.op.Spec.Tracing.SpanAttributes[0].Value = v }},
+		{name: "ObservabilityPolicy.tracing.strategy", benign: "ratio", mustReport: true, set: func(_ *vsCluster, e *c04Extras, v string) { e.op.Spec.Tracing.Strategy = ngfAPIv1alpha2.TraceStrategy(v) }},
+		{name: "ObservabilityPolicy.tracing.context", benign: "extract", mustReport: true, set: func(_ *vsCluster, e *c04Extras, v string) {
 			e.op.Spec.Tracing.Context = helpers.GetPointer(ngfAPIv1alpha2.TraceContext(v))
 		}},
-		{"UpstreamSettingsPolicy.zoneSize", "1m", true, func(_ *vsCluster, e *c04Extras, v string) { e.usp.Spec.ZoneSize = helpers.GetPointer(ngfAPIv1alpha1.Size(v)) }},
-		{"UpstreamSettingsPolicy.keepAlive.time", "1h", true, func(_ *vsCluster, e *c04Extras, v string) { e.usp.Spec.KeepAlive.Time = helpers.GetPointer(ngfAPIv1alpha1.Duration(v)) }},
-		{"UpstreamSettingsPolicy.keepAlive.timeout", "60s", true, func(_ *vsCluster, e *c04Extras, v string) {
+		{name: "UpstreamSettingsPolicy.zoneSize", benign: "1m", mustReport: true, set: func(_ *vsCluster, e *c04Extras, v string) { e.usp.Spec.ZoneSize = helpers.GetPointer(ngfAPIv1alpha1.Size(v)) }},
+		{name: "UpstreamSettingsPolicy.keepAlive.time", benign: "1h", mustReport: true, set: func(_ *vsCluster, e *c04Extras, v string) { e.usp.Spec.KeepAlive.Time = helpers.GetPointer(ngfAPIv1alpha1.Duration(v)) }},
+		{name: "UpstreamSettingsPolicy.keepAlive.timeout", benign: "60s", mustReport: true, set: func(_ *vsCluster, e *c04Extras, v string) {
 			e.usp.Spec.KeepAlive.Timeout = helpers.GetPointer(ngfAPIv1alpha1.Duration(v))
 		}},
-		{"BackendTLSPolicy.validation.hostname", "ok.example.com", true, func(_ *vsCluster, e *c04Extras, v string) { e.btp.Spec.Validation.Hostname = gatewayv1.PreciseHostname(v) }},
+		{name: "BackendTLSPolicy.validation.hostname", benign: "ok.example.com", mustReport: true, set: func(_ *vsCluster, e *c04Extras, v string) { e.btp.Spec.Validation.Hostname = gatewayv1.PreciseHostname(v) }},
+		// the field of the path-modifier union that the type does NOT select (CEL bypassed)
+		{name: "HTTPRoute.filter.rewrite.replaceFullPath(unselected)", benign: "/ok", mustReport: false, set: func(*vsCluster, *c04Extras, string) {},
+			post: func(objs []client.Object, v string) { c04Route(objs, "r1").Spec.Rules[0].Filters[2].URLRewrite.Path.ReplaceFullPath = &v }},
+		{name: "HTTPRoute.filter.rewrite.replacePrefixMatch(unselected)", benign: "/ok", mustReport: false, set: func(*vsCluster, *c04Extras, string) {},
+			post: func(objs []client.Object, v string) { c04Route(objs, "r1").Spec.Rules[1].Filters[0].URLRewrite.Path.ReplacePrefixMatch = &v }},
+		{name: "HTTPRoute.filter.redirect.replacePrefixMatch(unselected)", benign: "/ok", mustReport: false, set: func(*vsCluster, *c04Extras, string) {},
+			post: func(objs []client.Object, v string) { c04Route(objs, "r2").Spec.Rules[0].Filters[0].RequestRedirect.Path.ReplacePrefixMatch = &v }},
+		{name: "HTTPRoute.filter.redirect.replaceFullPath(unselected)", benign: "/ok", mustReport: false, set: func(*vsCluster, *c04Extras, string) {},
+			post: func(objs []client.Object, v string) { c04Route(objs, "r2").Spec.Rules[1].Filters[0].RequestRedirect.Path.ReplaceFullPath = &v }},
 	}
 }
 
@@ -211,11 +255,15 @@ var c04Payloads = []string{
 
 // c04Run runs the real pipeline and returns the .conf files, whether the marker is in other generated
 // files, and the status conditions of every object.
-func c04Run(c *vsCluster, e *c04Extras) (confs [][2]string, jsonMarker bool, conds []string) {
+func c04Run(c *vsCluster, e *c04Extras, post func([]client.Object)) (confs [][2]string, jsonMarker bool, conds []string) {
 	w := vpNewWorld(false)
 	evs := vpBaseEvents()
+	objs := c.Objects()
+	if post != nil {
+		post(objs)
+	}
 	// GatewayClass with parametersRef -> NginxProxy
-	for _, o := range c.Objects() {
+	for _, o := range objs {
 		if gc, ok := o.(*gatewayv1.GatewayClass); ok {
 			gc.Spec.ParametersRef = &gatewayv1.ParametersReference{Group: ngfAPIv1alpha1.GroupName, Kind: "NginxProxy", Name: "np"}
 		}
@@ -316,41 +364,64 @@ func c04Texts(confs [][2]string) string {
 
 func TestVerifC04(t *testing.T) {
 	out := vu.Open("C04")
-	out.ShardLen(8)
+	out.ShardLen(12)
 	rng := vu.NewRng(out.Seed ^ 0xC04)
 	leaves := c04Leaves()
 	type job struct {
 		leaf    c04Leaf
 		payload string
+		sur     string
+	}
+	relevant := func(name string) []string {
+		switch {
+		case strings.HasPrefix(name, "NginxProxy."):
+			return []string{"valid", "nginxproxy-mode-unset", "nginxproxy-other-field-invalid", "nginxproxy-exporter-interval-unset"}
+		case strings.HasPrefix(name, "HTTPRoute."):
+			return []string{"valid", "route-other-rule-invalid"}
+		case strings.HasPrefix(name, "ClientSettingsPolicy.") || strings.HasPrefix(name, "ObservabilityPolicy."):
+			return []string{"valid", "policy-other-field-invalid", "nginxproxy-other-field-invalid"}
+		}
+		return []string{"valid"}
 	}
 	var jobs []job
-	for _, l := range leaves {
-		for _, p := range c04Payloads {
-			jobs = append(jobs, job{l, p})
-		}
-	}
-	// quick: a seeded sample (3 payloads per leaf, rotating with the seed); thorough: the full cross product
-	if !out.Thorough() {
-		rng.Shuffle(len(jobs), func(i, j int) { jobs[i], jobs[j] = jobs[j], jobs[i] })
-		per := map[string]int{}
-		var sel []job
-		for _, j := range jobs {
-			if per[j.leaf.name] < 3 {
-				per[j.leaf.name]++
-				sel = append(sel, j)
+	if out.Thorough() {
+		// the full cross product leaf x payload x surroundings that concern the leaf's object
+		for _, l := range leaves {
+			for _, p := range c04Payloads {
+				for _, sur := range relevant(l.name) {
+					jobs = append(jobs, job{l, p, sur})
+				}
 			}
 		}
-		jobs = sel
+	} else {
+		// quick: in every relevant surrounding the two payloads that break an unquoted and a quoted argument,
+		// plus two seeded payloads in valid surroundings
+		for _, l := range leaves {
+			for _, sur := range relevant(l.name) {
+				jobs = append(jobs, job{l, "; zqx on;", sur}, job{l, "\"; zqx on; #", sur})
+			}
+			for k := 0; k < 2; k++ {
+				jobs = append(jobs, job{l, c04Payloads[rng.Intn(len(c04Payloads))], "valid"})
+			}
+		}
 	}
 	baseline := map[string][3]any{}
 	for _, j := range jobs {
-		bl, ok := baseline[j.leaf.name]
+		// the surroundings: mostly valid; thorough runs every surrounding for every job
+		sur := j.sur
+		leaf := j.leaf
+		bl, ok := baseline[leaf.name+"|"+sur]
 		if !ok {
 			c, e := c04Base(), c04BaseExtras()
-			j.leaf.set(c, e, j.leaf.benign)
-			confs, _, conds := c04Run(c, e)
+			leaf.set(c, e, leaf.benign)
+			c04Surround(sur, c, e)
+			var post func([]client.Object)
+			if leaf.post != nil {
+				post = func(objs []client.Object) { leaf.post(objs, leaf.benign) }
+			}
+			confs, _, conds := c04Run(c, e, post)
 			bl = [3]any{confs, conds, nil}
-			baseline[j.leaf.name] = bl
+			baseline[leaf.name+"|"+sur] = bl
 		}
 		c, e := c04Base(), c04BaseExtras()
 		// the payload goes in the middle and at the end of the value
@@ -360,14 +431,22 @@ func TestVerifC04(t *testing.T) {
 			hostile = j.leaf.benign[:k] + j.payload + j.leaf.benign[k:]
 		}
 		j.leaf.set(c, e, hostile)
-		confs, jsonMarker, conds := c04Run(c, e)
+		c04Surround(sur, c, e)
+		var post func([]client.Object)
+		if leaf.post != nil {
+			post = func(objs []client.Object) { leaf.post(objs, hostile) }
+		}
+		confs, jsonMarker, conds := c04Run(c, e, post)
 		bconfs := bl[0].([][2]string)
 		reported := strings.Join(conds, "\n") != strings.Join(bl[1].([]string), "\n")
 		dollar := strings.Contains(j.payload, "$")
-		term := vu.App("Case", vu.Str(j.leaf.name), c04Texts(bconfs), c04Texts(confs), vu.Bool(jsonMarker), vu.Bool(reported), vu.Bool(dollar), vu.Bool(j.leaf.mustReport))
-		human := map[string]any{"leaf": j.leaf.name, "benign": j.leaf.benign, "hostile": hostile, "reported": reported, "hostile_files": confs, "conditions": conds}
-		out.Case(term, human, true, j.leaf.name+"|"+hostile)
+		term := vu.App("Case", vu.Str(j.leaf.name), c04Texts(bconfs), c04Texts(confs), vu.Bool(jsonMarker), vu.Bool(reported), vu.Bool(dollar),
+			// in non-valid surroundings the owning object may already be rejected for another reason in the benign run too
+			vu.Bool(j.leaf.mustReport && sur == "valid"))
+		human := map[string]any{"leaf": j.leaf.name, "surroundings": sur, "benign": j.leaf.benign, "hostile": hostile, "reported": reported, "hostile_files": confs, "conditions": conds}
+		out.Case(term, human, true, j.leaf.name+"|"+sur+"|"+hostile)
 		out.Tally("leaf", j.leaf.name)
+		out.Tally("surroundings", sur)
 		out.Tally("payload", strconv.Quote(j.payload))
 		out.Tally("reported", strconv.FormatBool(reported))
 	}
